@@ -663,6 +663,10 @@ func runFrame(fr *frame) {
 		if s, ok := r.(string); ok {
 			panic(pathAbort{pathInternal, fmt.Sprintf("interpreter panic in %s: %s\n%s", fr.fn, s, debug.Stack())})
 		}
+		if p := fr.i.path; !p.panicCaptured {
+			p.panicCaptured = true
+			p.panicStack = targetStack(fr)
+		}
 		fr.panicking = true
 		fr.panic = r
 		fr.runDefers()
@@ -732,6 +736,7 @@ func doRecover(caller *frame) value {
 		caller.caller.panicking = false
 		p := caller.caller.panic
 		caller.caller.panic = nil
+		caller.i.path.panicCaptured = false
 
 		switch p := p.(type) {
 		case targetPanic:
@@ -750,6 +755,25 @@ func doRecover(caller *frame) value {
 		}
 	}
 	return iface{}
+}
+
+// targetStack renders the interpreted call stack ending at fr.
+func targetStack(fr *frame) []string {
+	var out []string
+	for f := fr; f != nil && len(out) < 40; f = f.caller {
+		pos := ""
+		if f.block != nil {
+			// best effort: position of the last instruction with a position in the block
+			for k := len(f.block.Instrs) - 1; k >= 0; k-- {
+				if p := f.block.Instrs[k].Pos(); p.IsValid() {
+					pos = f.fn.Prog.Fset.Position(p).String()
+					break
+				}
+			}
+		}
+		out = append(out, f.fn.String()+" "+pos)
+	}
+	return out
 }
 
 func hostStack() string {
